@@ -181,3 +181,40 @@ def is_symbolic(v):
 
 def fresh_sym(prefix, ty):
     return Sym(T.fresh(prefix, z3sort(ty)), ty)
+
+
+def clone_value(v, memo=None):
+    """Deep copy of the mutable holders (Obj, PList, PDict, PStream); terms and host objects are shared."""
+    if memo is None:
+        memo = {}
+    if id(v) in memo:
+        return memo[id(v)]
+    if isinstance(v, Obj):
+        o = Obj(v.cls)
+        memo[id(v)] = o
+        o.attrs = {k: clone_value(x, memo) for k, x in v.attrs.items()}
+        if hasattr(v, 'tuple_items'):
+            o.tuple_items = [clone_value(x, memo) for x in v.tuple_items]
+        return o
+    if isinstance(v, PList):
+        o = PList(None, v.e, v.ety, v.cls)
+        memo[id(v)] = o
+        if v.items is not None:
+            o.items = [clone_value(x, memo) for x in v.items]
+        return o
+    if isinstance(v, PDict):
+        o = PDict()
+        memo[id(v)] = o
+        o.d = {k: clone_value(x, memo) for k, x in v.d.items()}
+        return o
+    if isinstance(v, PStream):
+        o = PStream(v.buf)
+        memo[id(v)] = o
+        return o
+    if isinstance(v, SymMap):
+        o = SymMap(v.dom, v.val, v.kty, v.vty)
+        memo[id(v)] = o
+        return o
+    if isinstance(v, tuple):
+        return tuple(clone_value(x, memo) for x in v)
+    return v
